@@ -148,6 +148,8 @@ func (e Engine) Shrink(x any, stillFails func(any) bool) any {
 	}
 	for changed := true; changed && time.Now().Before(deadline); {
 		changed = false
+		changed = try(func(d *Case) bool { ok := d.Conc > 0 || d.Pad > 0; d.Conc, d.Pad = 0, 0; return ok }) || changed
+		changed = try(func(d *Case) bool { ok := d.EmptyID; d.EmptyID = false; return ok }) || changed
 		changed = try(func(d *Case) bool { ok := d.Twice; d.Twice = false; return ok }) || changed
 		changed = try(func(d *Case) bool { ok := d.Restart; d.Restart = false; return ok }) || changed
 		changed = try(func(d *Case) bool { ok := d.Retry > 0; d.Retry = 0; return ok }) || changed
@@ -207,6 +209,17 @@ func (e Engine) Shrink(x any, stillFails func(any) bool) any {
 						return false
 					}
 					nd.Rerun, nd.St, nd.Delay, nd.InKey = nil, false, 0, 0
+					return true
+				}) || changed
+				changed = try(func(d *Case) bool {
+					if gi >= len(d.Graphs) {
+						return false
+					}
+					nd := d.Graphs[gi].node(id)
+					if nd == nil || !nd.Empty {
+						return false
+					}
+					nd.Empty = false
 					return true
 				}) || changed
 				for _, after := range []bool{false, true} {
